@@ -312,7 +312,10 @@ def generate(seed, tier, opts):
                             "factor": round(rng.choice([rng.uniform(0.1, 1.0), rng.uniform(1.0, 10.0)]), 3),
                             "donor": rng.randrange(npts), "nseed": rng.randrange(10**6)})
             if v > 0 and rng.random() < 0.3:
-                ops.append({"op": "abort", "frac": round(rng.uniform(0.05, 0.95), 4)})
+                if rng.random() < 0.4:
+                    ops.append({"op": "starve", "maxiter": rng.randint(1, 4)})
+                else:
+                    ops.append({"op": "abort", "frac": round(rng.uniform(0.05, 0.95), 4)})
             ops.append({"op": "run_model"})
             if rng.random() < 0.3:
                 ops.append({"op": "restart_with", "nl": rng.choice(NL_KINDS), "lin": rng.choice(LIN_KINDS)})
@@ -730,6 +733,30 @@ def _exec_api(case, res, log, probe, violation, check_state, check_round_trip, r
                 # guess (DESIGN 12.2 item 4; observed only under Newton after a scaled guess)
                 # Resetting the guess is not enough under Newton with an iterative linear solver (its d_outputs
                 # warm start keeps the NaN): the user has to rebuild the Problem, so that is what happens here.
+                probe("abort_left_nonfinite_state_problem_rebuilt")
+                model = build(nl, lin)
+                model.set_point(points[cur])
+                guess_names = faults.cycle_and_state_vars(model)
+                store.clear()
+        elif k == "starve":
+            if cur is None or not store:
+                continue
+            saved = []
+            for path in model.coupled:
+                s_ = model.prob.model._get_subsystem(path).nonlinear_solver
+                saved.append((s_, s_.options["maxiter"]))
+                s_.options["maxiter"] = int(op["maxiter"])
+            st = _run(model, res, "starve")
+            for s_, mi in saved:
+                s_.options["maxiter"] = mi
+            if st == "nonconv":
+                res["fault_fired"]["starve"] = res["fault_fired"].get("starve", 0) + 1
+            elif st == "silent_nonconv":
+                violation("silent_nonconvergence", "run_model returned normally from a non-converged coupled solve", float("inf"), 0.0,
+                          {"op_index": opi, "nl": nl, "lin": lin, "detail": res.get("last_exception", {}).get("where")})
+                return
+            log.add("starve", op["maxiter"], st)
+            if obs.all_finite(obs.read_outputs(model.prob)):
                 probe("abort_left_nonfinite_state_problem_rebuilt")
                 model = build(nl, lin)
                 model.set_point(points[cur])
